@@ -5,7 +5,7 @@ from props import util
 
 THEOREMS = ['C01_nodal_balance', 'C01_nodal_balance_eps']
 
-CFG = {'p_coarse': 0.2, 'p_periodic': 0.15, 'T': (3, 8), 'n_assets': (1, 4), 'nodes': (1, 3),
+CFG = {'p_dupnode': 0.3, 'p_coarse': 0.2, 'p_periodic': 0.15, 'T': (3, 8), 'n_assets': (1, 4), 'nodes': (1, 3),
        'kinds': {'SimpleContract': 1, 'Contract': 1, 'Transport': 3, 'Storage': 2, 'MultiCommodityContract': 3, 'OrderBook': 3, 'ExtendedTransport': 1, 'ScaledAsset': 3, 'StructuredAsset': 3}}
 
 
@@ -33,6 +33,7 @@ def run(ctx):
     specs = util.corpus(ctx.prop) + gen.gen_many(ctx.seed, n, CFG, 'c01_')
     util.add_split(specs)
     specs += util.orderbook_tail_specs(ctx.seed, 10 if ctx.tier == 'quick' else 60, 'c01ob_')
+    specs += util.split_twin_specs(ctx.seed, 12 if ctx.tier == 'quick' else 80, 'c01tw_')
     specs = ctx.specs(specs)
     res = C.run_impl('portfolio', specs)
     exprs, owners = [], []
